@@ -48,6 +48,8 @@ use write_fonts::tables::loca::LocaFormat;
 use write_fonts::tables::maxp::Maxp;
 use write_fonts::{dump_table, FontBuilder};
 
+mod audit;
+
 fn main() {
     main_for("C09", body)
 }
@@ -545,6 +547,13 @@ fn decode_and_compare(
                             case(),
                         ),
                     }
+                    if family != "A" {
+                        // write-fonts' Glyph::read must dispatch on the sign of numberOfContours
+                        match Glyph::read(FontData::new(bytes)) {
+                            Ok(owned) if owned == to_write_glyph(spec) => {}
+                            _ => run.violation("Glyph owned re-read (simple) differs from the glyph written", &format!("glyph {i}"), case()),
+                        }
+                    }
                     h.str("S");
                     h.bytes(&bytes[10..]);
                     if bytes.last() == Some(&0) && reference_len_unpadded_is_odd(contours, instr.len()) {
@@ -562,6 +571,15 @@ fn decode_and_compare(
                     return;
                 }
                 let bytes = &glyf_b[offs[i]..offs[i + 1]];
+                // independent oracle: the bytes must be the from-spec canonical encoding
+                if let Some(what) = audit::raw_composite_mismatch(bytes, comps, bbox, None) {
+                    run.violation(
+                        &format!("composite glyph bytes differ from the from-spec encoding: {}", what.0),
+                        &format!("glyph {i}: {}", what.1),
+                        case(),
+                    );
+                    return;
+                }
                 match CompositeGlyph::read(FontData::new(bytes)) {
                     Ok(owned) => {
                         if Glyph::Composite(owned) != to_write_glyph(spec) {
@@ -577,6 +595,13 @@ fn decode_and_compare(
                         &format!("glyph {i}: {e}"),
                         case(),
                     ),
+                }
+                // (not in the 2 M-case family B: B2 hands the same code every component shape)
+                if family != "B" {
+                    match Glyph::read(FontData::new(bytes)) {
+                        Ok(owned) if owned == to_write_glyph(spec) => {}
+                        _ => run.violation("Glyph owned re-read (composite) differs from the glyph written", &format!("glyph {i}"), case()),
+                    }
                 }
                 h.str("C");
                 h.bytes(&bytes[10..]);
@@ -693,6 +718,16 @@ fn compare_simple(g: &rg::SimpleGlyph, contours: &[Vec<Pt>], instr: &[u8]) -> Op
 }
 
 fn compare_composite(g: &rg::CompositeGlyph, comps: &[CompSpec], bbox: &[i16; 4]) -> Option<(String, String)> {
+    compare_composite_instr(g, comps, bbox, None)
+}
+
+/// `instr`: the composite's instruction bytes (None: the last component must not carry WE_HAVE_INSTRUCTIONS)
+fn compare_composite_instr(
+    g: &rg::CompositeGlyph,
+    comps: &[CompSpec],
+    bbox: &[i16; 4],
+    want_instr: Option<&[u8]>,
+) -> Option<(String, String)> {
     if [g.x_min(), g.y_min(), g.x_max(), g.y_max()] != *bbox {
         return Some(("bounding box".into(), format!("{:?} vs {:?}", [g.x_min(), g.y_min(), g.x_max(), g.y_max()], bbox)));
     }
@@ -701,8 +736,11 @@ fn compare_composite(g: &rg::CompositeGlyph, comps: &[CompSpec], bbox: &[i16; 4]
         return Some(("component count".into(), format!("{} vs {}", got.len(), comps.len())));
     }
     let (n, instr) = g.count_and_instructions();
-    if n != comps.len() || instr.is_some() {
+    if n != comps.len() || instr != want_instr {
         return Some(("count_and_instructions".into(), format!("{n} / {:?}", instr.map(|i| i.len()))));
+    }
+    if g.instructions() != want_instr {
+        return Some(("instructions()".into(), format!("{:?} bytes", g.instructions().map(|i| i.len()))));
     }
     let ids: Vec<u16> = g.component_glyphs_and_flags().map(|(g, _)| g.to_u16()).collect();
     if ids != comps.iter().map(|c| c.gid).collect::<Vec<_>>() {
@@ -810,7 +848,7 @@ fn simple_family(run: &Run) {
     run.bound("A.deltas_D", json!(D9));
     run.bound("A.deltas_D4_for_4_points", json!(D7));
     run.bound("A.max_points", json!(n_max));
-    run.bound("A.instruction_lengths", json!("{0,1,2,3} for <=2 points, {0,1} for 3 points (quick: 1 only with the single-contour split), {0} for 4 points"));
+    run.bound("A.instruction_lengths", json!("{0,1,2,3} for <=2 points, {0,1} for 3 points (quick: {0}), {0} for 4 points"));
     run.bound("A.contour_splits", json!("all compositions of the point count"));
     // per-point alphabet: (dx, dy, on)
     let alpha = |d: &[i32]| -> Vec<(i32, i32, bool)> {
@@ -869,7 +907,9 @@ fn simple_family(run: &Run) {
                             for &il in instr_lens {
                                 // quick tier, 3 points: the second instruction length only for the
                                 // single-contour split (keeps the tier under a minute on a busy machine)
-                                if quick && n == 3 && il != 0 && split.len() != 1 {
+                                // (audit: with the added families the second length moved to the
+                                // thorough tier altogether; lengths {0..3} stay in quick for <= 2 points)
+                                if quick && n == 3 && il != 0 {
                                     continue;
                                 }
                                 let spec = GSpec::Simple {
@@ -1723,78 +1763,102 @@ fn check_path(run: &Run, els: &[El], l: &mut Local) {
     // (each contour's duplicated closing point is not an elision; count only true drops)
     // hmtx.lsb = xMin, as in every well-formed font: the scaler places phantom point 1 at xMin - lsb
     // and shifts the outline so that it lies at x = 0
-    let lsb = match &spec {
-        GSpec::Simple { contours, .. } => bbox_of(contours).x_min,
-        _ => 0,
+    let own_box = match &spec {
+        GSpec::Simple { contours, .. } => bbox_of(contours),
+        _ => Bbox::default(),
     };
+    let lsb = own_box.x_min;
+    // The box from_bezpath stores is documented as the control-point box of the path. Every point the
+    // builder drops is a midpoint of its two neighbours (or the duplicate of the start point), so the box
+    // of the remaining rounded points is that box: the glyph written below (bbox_of) is the glyph returned.
+    if !glyph.contours.is_empty() && glyph.bbox != own_box {
+        run.violation(
+            "SimpleGlyph::from_bezpath stores a bounding box that is not the control-point box of the path",
+            &format!("stored {:?}, control box {:?}", glyph.bbox, own_box),
+            case(),
+        );
+        return;
+    }
+    {
+        let mut g2 = glyph.clone();
+        g2.bbox = Bbox { x_min: 1, y_min: 2, x_max: 3, y_max: 4 };
+        g2.recompute_bounding_box();
+        if !glyph.contours.is_empty() && g2.bbox != own_box {
+            run.violation(
+                "SimpleGlyph::recompute_bounding_box differs from the min/max of the glyph's points",
+                &format!("recomputed {:?}, min/max {:?}", g2.bbox, own_box),
+                case(),
+            );
+            return;
+        }
+    }
     let seq = [spec];
     let Some(built) = check_sequence(run, "D", &seq, 0, l, &case) else {
         return;
     };
-    // assemble a font and draw unscaled
-    let r = guard(|| {
-        let head = Head {
-            units_per_em: 1000,
-            index_to_loc_format: built.long as i16,
-            ..Default::default()
-        };
-        let hhea = Hhea { number_of_h_metrics: 1, ..Default::default() };
-        let hmtx = Hmtx::new(vec![LongMetric::new(500, lsb)], vec![]);
-        let font_bytes = FontBuilder::new()
-            .add_table(&head)
-            .unwrap()
-            .add_table(&hhea)
-            .unwrap()
-            .add_table(&hmtx)
-            .unwrap()
-            .add_table(&Maxp::new(1))
-            .unwrap()
-            .add_raw(Tag::new(b"glyf"), built.glyf.clone())
-            .add_raw(Tag::new(b"loca"), built.loca.clone())
-            .build();
-        let font = FontRef::new(&font_bytes).map_err(|e| format!("font: {e}"))?;
-        let og = font
-            .outline_glyphs()
-            .get(GlyphId::new(0))
-            .ok_or_else(|| "no outline glyph 0".to_string())?;
-        let mut pen = Rec::default();
-        og.draw(DrawSettings::unhinted(Size::unscaled(), LocationRef::default()), &mut pen)
-            .map_err(|e| format!("draw: {e}"))?;
-        Ok::<_, String>(pen.0)
-    });
-    l.trans += 2;
-    let drawn = match r {
-        Ok(Ok(d)) => d,
-        Ok(Err(e)) => {
-            run.violation("a glyph built from a path cannot be drawn", &e, case());
-            return;
-        }
+    let Some(want) = contours_of(els) else {
+        return;
+    };
+    // assemble a font and draw unscaled: the default (FreeType) path style, the HarfBuzz path style (a
+    // different scaler and a different start-point rule) and the default style into caller-provided memory
+    // of exactly draw_memory_size bytes. All three must be the input path, geometrically.
+    let font_bytes = match guard(|| audit::assemble_font(&built.glyf, &built.loca, built.long, &[lsb])) {
+        Ok(b) => b,
         Err(p) => {
             run.violation(
-                &format!("drawing a built glyph panics: {} in {}", p.kind(), p.site()),
+                &format!("assembling a font panics: {} in {}", p.kind(), p.site()),
                 &format!("{} ({}:{})", p.message, p.file, p.line),
                 case(),
             );
             return;
         }
     };
-    let (Some(want), Some(got)) = (contours_of(els), contours_of(&drawn)) else {
-        run.violation("drawn path is malformed (cubic or segment before move)", &format!("{drawn:?}"), case());
-        return;
-    };
-    // exact for integer inputs; within the half unit of coordinate rounding otherwise
-    let tol = if integer { 0.0 } else { 0.5 };
-    let ok = want.len() == got.len() && want.iter().zip(got.iter()).all(|(a, b)| cyclic_equal(a, b, tol));
-    if !ok {
-        run.violation(
-            &format!(
-                "glyph built from a {} path draws as a geometrically different path",
-                if integer { "integer" } else { "fractional" }
-            ),
-            &format!("input {els:?}; drawn {drawn:?}"),
-            case(),
-        );
+    let mut got0: Vec<Vec<Seg>> = vec![];
+    for mode in 0..3u8 {
+        let suffix = audit::DRAW_MODE_SUFFIX[mode as usize];
+        l.trans += 2;
+        let drawn = match guard(|| audit::draw_gid(&font_bytes, 0, mode)) {
+            Ok(Ok(d)) => d,
+            Ok(Err(e)) => {
+                run.violation(&format!("a glyph built from a path cannot be drawn{suffix}"), &e, case());
+                return;
+            }
+            Err(p) => {
+                run.violation(
+                    &format!("drawing a built glyph panics{suffix}: {} in {}", p.kind(), p.site()),
+                    &format!("{} ({}:{})", p.message, p.file, p.line),
+                    case(),
+                );
+                return;
+            }
+        };
+        let Some(got) = contours_of(&drawn) else {
+            run.violation(
+                &format!("drawn path is malformed (cubic or segment before move){suffix}"),
+                &format!("{drawn:?}"),
+                case(),
+            );
+            return;
+        };
+        // exact for integer inputs; within the half unit of coordinate rounding otherwise
+        let tol = if integer { 0.0 } else { 0.5 };
+        let ok = want.len() == got.len() && want.iter().zip(got.iter()).all(|(a, b)| cyclic_equal(a, b, tol));
+        if !ok {
+            run.violation(
+                &format!(
+                    "glyph built from a {} path draws as a geometrically different path{suffix}",
+                    if integer { "integer" } else { "fractional" }
+                ),
+                &format!("input {els:?}; drawn {drawn:?}"),
+                case(),
+            );
+            return;
+        }
+        if mode == 0 {
+            got0 = got;
+        }
     }
+    let got = got0;
     // input on-curve anchors = one per segment; fewer on-curve points in the glyph = implied points dropped
     if n_on < want.iter().map(|c| c.len()).sum::<usize>() {
         l.elided += 1;
@@ -2127,7 +2191,11 @@ fn path_family(run: &Run) {
 /// anything still panics (also inside worker threads) the run must end with a verdict (exit 1), never
 /// with a harness stop.
 fn family(run: &Run, name: &str, f: impl FnOnce()) {
-    if let Err(p) = guard(f) {
+    let t0 = std::time::Instant::now();
+    let r = guard(f);
+    // wall time per family (information only; no decision depends on it)
+    run.extra(&format!("wall_s.{name}"), json!((t0.elapsed().as_secs_f64() * 10.0).round() / 10.0));
+    if let Err(p) = r {
         run.violation(
             &format!("panic outside the per-case guards (family {name}): {} in {}", p.kind(), p.site()),
             &format!("{} ({}:{})", p.message, p.file, p.line),
@@ -2172,6 +2240,26 @@ fn body(run: &Run, replay: Option<&Value>) {
                 check_sequence(run, "C.sized", &seq, 0, &mut l, &c);
             }
             Some("path") => check_path(run, &els_from_json(&case["els"]), &mut l),
+            Some("font") => {
+                let letters: Vec<usize> = case["letters"].as_array().unwrap().iter().map(|k| k.as_u64().unwrap() as usize).collect();
+                audit::check_font(run, &letters, case["fillers"].as_u64().unwrap_or(0) as usize, &mut l);
+            }
+            Some("masters") => {
+                let masters: Vec<Vec<El>> = case["masters"].as_array().unwrap().iter().map(els_from_json).collect();
+                audit::check_masters(run, &masters, &mut l);
+            }
+            Some("loca") => {
+                let offs: Vec<u32> = case["offsets"].as_array().unwrap().iter().map(|k| k.as_u64().unwrap() as u32).collect();
+                audit::check_loca_vector(run, &offs, &mut l);
+            }
+            Some("loca_read") => audit::loca_family(run),
+            Some("composite_instr") => {
+                if let GSpec::Composite { comps, bbox } = gspec_from_json(&case["glyph"]) {
+                    audit::check_composite_instr(run, &comps, &bbox, &unhex(case["instr"].as_str().unwrap_or("")), &mut l);
+                }
+            }
+            Some("union") | Some("direct") => audit::composite_family2(run),
+            Some("contours") | Some("points") => audit::count_family(run),
             _ => run.machinery_error("unknown replay kind"),
         }
         return;
@@ -2224,6 +2312,13 @@ fn body(run: &Run, replay: Option<&Value>) {
     family(run, "sequence_family", || sequence_family(run));
     family(run, "history_family", || history_family(run));
     family(run, "composite_family", || composite_family(run));
+    family(run, "composite_family2", || audit::composite_family2(run));
+    family(run, "composite_instr_family", || audit::composite_instr_family(run));
+    family(run, "loca_family", || audit::loca_family(run));
+    family(run, "count_family", || audit::count_family(run));
+    family(run, "long_path_family", || audit::long_path_family(run));
+    family(run, "font_family", || audit::font_family(run));
+    family(run, "masters_family", || audit::masters_family(run));
     family(run, "run_family", || run_family(run));
     family(run, "path_family", || path_family(run));
     family(run, "simple_family", || simple_family(run));
